@@ -1,5 +1,5 @@
 (* C18 — proofs about Model/Authority.v *)
-From RipV Require Import Base.Prelude Model.Authority Proofs.AuthorityInv Proofs.AuthorityLive.
+From RipV Require Import Base.Prelude Model.Authority Proofs.AuthorityInv Proofs.AuthorityLive Proofs.AuthorityTake.
 
 (* ------------------------------------------------------------------ witnesses (refutations) *)
 Definition two_servers : list proc := [fresh 1 DServer; fresh 2 DServer].
@@ -155,4 +155,21 @@ Lemma recovers_example :
 Proof.
   split; [intros q [<-|[<-|[]]]; left; reflexivity|]. split; [reflexivity|].
   split; split; cbn; intros p E; inversion E; subst; reflexivity.
+Qed.
+
+(* non-vacuity of the all-schedules theorem: runs in which nothing live was taken and somebody holds; and the S13 run,
+   where the flag is set *)
+Lemma not_taken_example :
+  s_took_lock (run true s13c_init serial_sched) = false /\ holders (run true s13c_init serial_sched) = [1]
+  /\ s_took_lock (run false empty_init grace_sched) = true.
+Proof. vm_compute. repeat split; reflexivity. Qed.
+
+Definition bystander_sched : list event := [Step 1 0; Step 2 0; Step 1 0; Step 2 0; Crash 1; Step 2 2; Step 2 0; Step 2 6].
+Lemma undisturbed_example :
+  (forall q, In q [fresh 1 DServer; fresh 2 DClient] -> contender q)
+  /\ (forall e, In e bystander_sched -> ev_idx e <> 0%nat).
+Proof.
+  split.
+  - intros q [<-|[<-|[]]]; [left|right]; reflexivity.
+  - intros e He. cbn in He. repeat (destruct He as [<-|He]; [cbn; lia|]). destruct He.
 Qed.
